@@ -78,8 +78,12 @@ def ort_outputs(model: onnx.ModelProto, feeds: dict[str, np.ndarray]):
     return sess.run(None, {k: v for k, v in feeds.items() if k in names})
 
 
-def compare_ort(before: onnx.ModelProto, after: onnx.ModelProto, feeds_list) -> dict:
-    """{'status': 'equal'|'differ'|'after_invalid'|'before_invalid', ...}"""
+def compare_ort(before: onnx.ModelProto, after: onnx.ModelProto, feeds_list, random_by_design: bool = False) -> dict:
+    """{'status': 'equal'|'differ'|'after_invalid'|'before_invalid', ...}
+    A model with unseeded random operators has no reproducible values: only count, shape and dtype of
+    its outputs are compared — unless the generator built it so that the OUTPUT is deterministic
+    (family misc_cse_random: 'are two independent draws different?')."""
+    values = random_by_design or not termify.has_unseeded_random(before)
     try:
         outs_b = [ort_outputs(before, f) for f in feeds_list]
     except Exception as e:
@@ -97,6 +101,8 @@ def compare_ort(before: onnx.ModelProto, after: onnx.ModelProto, feeds_list) -> 
                 return {"status": "differ", "why": f"output {j} shape {b.shape} vs {a.shape}", "feed": k}
             if b.dtype != a.dtype:
                 return {"status": "differ", "why": f"output {j} dtype {b.dtype} vs {a.dtype}", "feed": k}
+            if not values:
+                continue
             if b.dtype.kind in "fc":
                 # layout errors move distinct values (spaced >= 0.1) around; a reduction may legally
                 # re-associate its sum, so floats are compared up to a few ulps of float32
@@ -195,7 +201,7 @@ def run(chk: Check) -> None:
         chk.count({"family": desc["family"], "guards": desc.get("guards", []),
                    "passes_that_changed_it": [s[0] for s in snaps]}, nontrivial=changed_any or bool(desc.get("guards")))
         # end-to-end: whole pipeline vs original, always executed
-        cmp = compare_ort(model, final, feeds_list)
+        cmp = compare_ort(model, final, feeds_list, desc["family"] == "misc_cse_random")
         if cmp["status"] == "equal":
             stale = declared_output_mismatch(model, final, feeds_list[0])
             if stale:
@@ -251,7 +257,8 @@ def run(chk: Check) -> None:
             toobig += 1
         if verdict == "rejected":
             rejected += 1
-        cmp = m.get("precomputed") or compare_ort(m["before"], m["after"], m["feeds"])
+        cmp = m.get("precomputed") or compare_ort(m["before"], m["after"], m["feeds"],
+                                                   m["desc"].get("family") == "misc_cse_random")
         chk.add("disagreements_checked")
         if cmp["status"] in ("differ", "after_invalid"):
             key = finding_key(m["pass"], m["desc"], cmp)
